@@ -92,12 +92,16 @@ Definition stats (key : nat -> nat) (G : nat) (cs : list cell) : list cell * lis
   (map (fun g => mkcell (Nat.eqb (gcount key cs g) 0) (gmean key cs g)) (seq 0 G),
    map (fun g => mkcell (Nat.eqb (gcount key cs g) 0) (gstd key cs g)) (seq 0 G)).
 Definition stat (l : list cell) (g : nat) : cell := nth g l (mkcell true (zero O)).
-(* self.body.data = (self.body.data - mu) / std (pose.py:176), mu / std broadcast over the reduced axes *)
+(* self.body.data = (self.body.data - mu) / std (pose.py:176): entry [key i] of mu / std meets cell i *)
 Definition apply_stats (key : nat -> nat) (mu sd : list cell) (cs : list cell) : list cell :=
   imap (fun i c => let m := stat mu (key i) in let s := stat sd (key i) in
                    if cm c || cm m || cm s then mkcell true (cv c) else mkcell false ((cv c - cv m) / cv s)) 0 cs.
-Definition normalize_distribution (key : nat -> nat) (G : nat) (cs : list cell) : list cell * (list cell * list cell) :=
-  let st := stats key G cs in (apply_stats key (fst st) (snd st) cs, st).
+(* normalize_distribution (pose.py:152-178).  [gkey i] is the group cell i is reduced in (data.mean(axis=axis)
+   drops the reduced axes); [bkey i] is the entry of the statistics that numpy / tf broadcasting pairs with cell i in
+   (data - mu) / std.  For a leading block of axes both are i mod G; for other axis tuples the statistics are
+   right-aligned against the wrong axes (model/C13_Axes.v computes both from shape and axis). *)
+Definition normalize_distribution (gkey bkey : nat -> nat) (G : nat) (cs : list cell) : list cell * (list cell * list cell) :=
+  let st := stats gkey G cs in (apply_stats bkey (fst st) (snd st) cs, st).
 (* self.body.data = (self.body.data * std) + mu (pose.py:189) *)
 Definition unnormalize_distribution (key : nat -> nat) (mu sd : list cell) (cs : list cell) : list cell :=
   imap (fun i c => let m := stat mu (key i) in let s := stat sd (key i) in
